@@ -19,36 +19,36 @@ import (
 // multiplication/division by 1 or -1 mixes components (Inf*0 = NaN); x-0, x*1, x/1,
 // x*-1, x/-1 are exact for floats; everything listed for integers holds modulo 2^n.
 var identityTable = map[string][]string{
-	"ADD/R/0/same":     {"Int", "Uint"},
-	"ADD/L/0/same":     {"Int", "Uint"},
-	"ADD/R/\"\"/same":  {"String"},
-	"ADD/L/\"\"/same":  {"String"},
-	"SUB/R/0/same":     {"Int", "Uint", "Float", "Complex"},
-	"MUL/R/1/same":     {"Int", "Uint", "Float"},
-	"MUL/L/1/same":     {"Int", "Uint", "Float"},
-	"MUL/R/0/zero":     {"Int", "Uint"},
-	"MUL/L/0/zero":     {"Int", "Uint"},
-	"MUL/R/-1/neg":     {"Int", "Uint", "Float"},
-	"MUL/L/-1/neg":     {"Int", "Uint", "Float"},
-	"QUO/R/1/same":     {"Int", "Uint", "Float"},
-	"QUO/R/-1/neg":     {"Int", "Uint", "Float"},
-	"REM/R/1/zero":     {"Int", "Uint"},
-	"REM/R/-1/zero":    {"Int", "Uint"},
-	"AND/R/0/zero":     {"Int", "Uint"},
-	"AND/L/0/zero":     {"Int", "Uint"},
-	"AND/R/-1/same":    {"Int", "Uint"},
-	"AND/L/-1/same":    {"Int", "Uint"},
-	"OR/R/0/same":      {"Int", "Uint"},
-	"OR/L/0/same":      {"Int", "Uint"},
-	"XOR/R/0/same":     {"Int", "Uint"},
-	"XOR/L/0/same":     {"Int", "Uint"},
-	"AND_NOT/R/0/same": {"Int", "Uint"},
+	"ADD/R/0/same":      {"Int", "Uint"},
+	"ADD/L/0/same":      {"Int", "Uint"},
+	"ADD/R/\"\"/same":   {"String"},
+	"ADD/L/\"\"/same":   {"String"},
+	"SUB/R/0/same":      {"Int", "Uint", "Float", "Complex"},
+	"MUL/R/1/same":      {"Int", "Uint", "Float"},
+	"MUL/L/1/same":      {"Int", "Uint", "Float"},
+	"MUL/R/0/zero":      {"Int", "Uint"},
+	"MUL/L/0/zero":      {"Int", "Uint"},
+	"MUL/R/-1/neg":      {"Int", "Uint", "Float"},
+	"MUL/L/-1/neg":      {"Int", "Uint", "Float"},
+	"QUO/R/1/same":      {"Int", "Uint", "Float"},
+	"QUO/R/-1/neg":      {"Int", "Uint", "Float"},
+	"REM/R/1/zero":      {"Int", "Uint"},
+	"REM/R/-1/zero":     {"Int", "Uint"},
+	"AND/R/0/zero":      {"Int", "Uint"},
+	"AND/L/0/zero":      {"Int", "Uint"},
+	"AND/R/-1/same":     {"Int", "Uint"},
+	"AND/L/-1/same":     {"Int", "Uint"},
+	"OR/R/0/same":       {"Int", "Uint"},
+	"OR/L/0/same":       {"Int", "Uint"},
+	"XOR/R/0/same":      {"Int", "Uint"},
+	"XOR/L/0/same":      {"Int", "Uint"},
+	"AND_NOT/R/0/same":  {"Int", "Uint"},
 	"AND_NOT/R/-1/zero": {"Int", "Uint"},
-	"AND_NOT/L/0/zero": {"Int", "Uint"},
-	"SHL/R/0/same":     {"Int", "Uint"},
-	"SHR/R/0/same":     {"Int", "Uint"},
-	"SHL/L/0/zero":     {"Int", "Uint"},
-	"SHR/L/0/zero":     {"Int", "Uint"},
+	"AND_NOT/L/0/zero":  {"Int", "Uint"},
+	"SHL/R/0/same":      {"Int", "Uint"},
+	"SHR/R/0/same":      {"Int", "Uint"},
+	"SHL/L/0/zero":      {"Int", "Uint"},
+	"SHR/L/0/zero":      {"Int", "Uint"},
 }
 
 // extendOps propagates the operator of a dispatched compile function to the helper
